@@ -634,6 +634,111 @@ def compiler_flags(texts):
     return out, unhandled, rebuilt
 
 
+def nows(t): return re.sub(r"\s+", "", t)
+
+
+def value_plumbing(fns):
+    """Which Rust expression every C-visible value is filled from.
+
+    * out parameters: `*<param> = <expr>;` statements of exported functions;
+    * structures handed to callbacks / returned: the `YRX_X { field: expr, .. }` literals;
+    * iteration sources: `for <pat> in <expr> {` loops that invoke a callback, with the callback's first argument;
+    * the metadata match: MetaValue variant -> (type tag, union member, payload expression);
+    * global setters: type of the `value` parameter and the helper call it is passed to."""
+    outs, structs, loops, meta, setters, cstrs = [], [], [], [], [], []
+    exported = [f for f in fns.values() if f.exported]
+    for fn in sorted(exported, key=lambda f: (FILES.index(f.file), f.line)):
+        body = fn.body
+        flat = nows(body)
+        for m in re.finditer(r"(?:(?<=^)|(?<=[;{}]))\*([a-z_]+)=([^;]+);", flat):
+            outs.append((fn.name, m.group(1), m.group(2)))
+        for m in re.finditer(r"let\s+([a-z_]+)\s*=\s*CString::new\(([^;]*?)\)\s*\.unwrap\(\)\s*;", body):
+            cstrs.append((fn.name, m.group(1), nows(m.group(2))))
+        for m in re.finditer(r"\b(YRX_[A-Z_]+)\s*\{", body):
+            name = m.group(1)
+            if name in ("YRX_RESULT",): continue
+            j = close_of(body, m.end() - 1)
+            inner = body[m.end():j]
+            if "=>" in inner or ";" in inner: continue      # a match/block, not a literal
+            # split fields at top-level commas
+            parts, depth, cur = [], 0, ""
+            for ch in inner:
+                if ch in OPEN: depth += 1
+                elif ch in CLOSE: depth -= 1
+                if ch == "," and depth == 0: parts.append(cur); cur = ""
+                else: cur += ch
+            if cur.strip(): parts.append(cur)
+            for part in parts:
+                if ":" not in part: continue
+                k, v = part.split(":", 1)
+                structs.append((fn.name, name, nows(k).replace("r#", ""), nows(v)))
+        for m in re.finditer(r"\bfor\s+(.+?)\s+in\s+([^{]+?)\s*\{", body, re.S):
+            b0 = body.find("{", m.end() - 1)
+            b1 = close_of(body, b0)
+            cm = re.search(r"\bcallback\s*\(", body[b0:b1])
+            if not cm: continue
+            a0 = b0 + cm.end() - 1
+            a1 = close_of(body, a0)
+            args = body[a0 + 1:a1]
+            first = args.split(",")[0] if "{" not in args.split(",")[0] else args[:args.find("{")] + "{..}"
+            it = nows(m.group(2))
+            if re.match(r"[a-z_]+$", it):
+                # `let it = if let Some(x) = p.as_ref() { EXPR } else { return .. };`
+                lm = re.search(r"let\s+" + it + r"\s*=\s*if\s+let\s+Some\(\w+\)\s*=\s*\w+\.as_ref\(\)\s*\{\s*([^{}]+?)\s*\}", body)
+                if lm: it = nows(lm.group(1))
+            loops.append((fn.name, nows(m.group(1)), it, nows(first)))
+        if fn.name == "yrx_rule_iter_metadata":
+            mm = re.search(r"match\s+value\s*\{", body)
+            if not mm: raise TranslateError("yrx_rule_iter_metadata: `match value {` not found")
+            j = close_of(body, mm.end() - 1)
+            arms = body[mm.end():j]
+            for am in re.finditer(r"MetaValue::([A-Za-z]+)\(v\)\s*=>", arms):
+                k = am.end()
+                while arms[k] in " \n\t": k += 1
+                e = close_of(arms, k)
+                arm = arms[k:e + 1]
+                tm = re.search(r"YRX_METADATA_TYPE::(YRX_[A-Z0-9_]+)", arm)
+                vm = re.search(r"YRX_METADATA_VALUE\s*\{\s*(?:r#)?([a-z0-9_]+)\s*:\s*", arm)
+                if not tm or not vm: raise TranslateError(f"yrx_rule_iter_metadata: arm of MetaValue::{am.group(1)} not understood")
+                # payload expression: up to the matching close of the union literal
+                u0 = arm.find("{", vm.start())
+                u1 = close_of(arm, u0)
+                payload = nows(arm[vm.end():u1]).rstrip(",")
+                if payload == "string.as_ptr()":
+                    sm = re.search(r"string\s*=\s*([^;]+);", arm)
+                    if not sm: raise TranslateError("yrx_rule_iter_metadata: `string = ..;` not found in the String arm")
+                    payload = nows(sm.group(1)) + ".as_ptr()"
+                meta.append((am.group(1), tm.group(1), vm.group(1), payload))
+            if len(meta) < 2: raise TranslateError("yrx_rule_iter_metadata: MetaValue arms not found")
+        gm = re.match(r"yrx_(scanner_set|compiler_define)_global_([a-z]+)$", fn.name)
+        if gm:
+            pm = re.search(r"\bvalue\s*:\s*([^,)]+)", fn.sig)
+            if not pm: raise TranslateError(f"{fn.name}: parameter `value` not found")
+            helper = "yrx_scanner_set_global" if gm.group(1) == "scanner_set" else "yrx_compiler_define_global"
+            cm = re.search(re.escape(helper) + r"\s*\(\s*(\w+)\s*,\s*(\w+)\s*,\s*(\w+)\s*\)", body)
+            if not cm: raise TranslateError(f"{fn.name}: call of {helper}(.., .., value) not found")
+            # conversions applied to `value` before the call
+            conv = []
+            if re.search(r"str_from_ptr\s*\(\s*value\s*\)|CStr::from_ptr\s*\(\s*value\s*\)\s*\.to_str\(\)", body): conv.append("utf8")
+            if re.search(r"serde_json::from_str\s*\(\s*value\s*\)", body): conv.append("json")
+            setters.append((fn.name, nows(pm.group(1)), helper, cm.group(3), "+".join(conv)))
+    # the helpers hand the value to the Rust API unchanged
+    helpers = []
+    for h, meth in (("yrx_scanner_set_global", "set_global"), ("yrx_compiler_define_global", "define_global")):
+        if h not in fns: raise TranslateError(f"{h} not found")
+        m = re.search(r"\.inner\s*\.\s*" + meth + r"\s*\(\s*(\w+)\s*,\s*(\w+)\s*\)", fns[h].body)
+        if not m: raise TranslateError(f"{h}: call of .inner.{meth}(ident, value) not found")
+        helpers.append((h, meth, m.group(1), m.group(2)))
+    return outs, structs, loops, meta, setters, helpers, cstrs
+
+
+def enum_variants(text, name, what):
+    body, _, _ = block_after(strip_comments(text), r"pub\s+enum\s+" + name + r"\b[^{]*\{", what)
+    vs = re.findall(r"^\s*([A-Za-z_][A-Za-z0-9_]*)\s*(?:\([^)]*\))?\s*,", body, re.M)
+    if len(vs) < 2: raise TranslateError(f"{what}: variants not found")
+    return vs
+
+
 def analyse():
     texts, fns, methods = {}, {}, []
     for f in FILES:
@@ -742,6 +847,34 @@ def main():
     L.append("  end.")
     L.append("")
     flags, unhandled, rebuilt = compiler_flags({f: src("capi/src/" + f) for f in ["compiler.rs"]})
+    # ---- value plumbing
+    texts0 = {f: src("capi/src/" + f) for f in FILES}
+    fns0 = {}
+    for f in FILES:
+        pre = re.sub(r"#\[cfg\([^\]]*\)\]", lambda m: re.sub(r'"([^"]*)"', r"<\1>", m.group(0)), texts0[f])
+        for fn in collect_fns(f, neutralize(pre)):
+            if not fn.in_impl: fns0[fn.name] = fn
+    outs, structs, loops, meta, setters, helpers, cstrs = value_plumbing(fns0)
+    q = lambda x: '"' + x.replace('"', "'") + '"'
+    L.append("(* ---- value plumbing: which Rust expression each C-visible value is filled from ---- *)")
+    L.append("(* `*<out parameter> = <expr>;` of exported functions: (function, parameter, expression) *)")
+    L.append("Definition out_params : list (string * string * string) :=\n  [" + ";\n   ".join(f"({q(a)}, {q(b)}, {q(c)})" for a, b, c in outs) + "].")
+    L.append("(* `YRX_X { field: expr }` literals: (function, structure, field, expression) *)")
+    L.append("Definition struct_fields : list (string * string * string * string) :=\n  [" + ";\n   ".join(f"({q(a)}, {q(b)}, {q(c)}, {q(d)})" for a, b, c, d in structs) + "].")
+    L.append("(* loops that invoke a callback: (function, loop pattern, iterated expression, first callback argument) *)")
+    L.append("Definition callback_loops : list (string * string * string * string) :=\n  [" + ";\n   ".join(f"({q(a)}, {q(b)}, {q(c)}, {q(d)})" for a, b, c, d in loops) + "].")
+    L.append("(* `let x = CString::new(<expr>).unwrap();` of exported functions: (function, variable, expression) *)")
+    L.append("Definition c_strings : list (string * string * string) :=\n  [" + ";\n   ".join(f"({q(a)}, {q(b)}, {q(c)})" for a, b, c in cstrs) + "].")
+    L.append("(* yrx_rule_iter_metadata: (MetaValue variant, YRX_METADATA_TYPE tag, YRX_METADATA_VALUE member, payload) *)")
+    L.append("Definition meta_arms : list (string * string * string * string) :=\n  [" + ";\n   ".join(f"({q(a)}, {q(b)}, {q(c)}, {q(d)})" for a, b, c, d in meta) + "].")
+    L.append("Definition metadata_type_tags : list string := [" + "; ".join(q(v) for v in enum_variants(src("capi/src/metadata.rs"), "YRX_METADATA_TYPE", "enum YRX_METADATA_TYPE")) + "].")
+    L.append("(* enum MetaValue of lib/src/models.rs *)")
+    L.append("Definition metavalue_variants : list string := [" + "; ".join(q(v) for v in enum_variants(src("lib/src/models.rs"), "MetaValue", "enum MetaValue")) + "].")
+    L.append("(* global setters: (function, type of `value`, helper called, third argument, conversions applied to value) *)")
+    L.append("Definition global_setters : list (string * string * string * string * string) :=\n  [" + ";\n   ".join(f"({q(a)}, {q(b)}, {q(c)}, {q(d)}, {q(e)})" for a, b, c, d, e in setters) + "].")
+    L.append("(* the helpers pass (ident, value) on: (helper, Rust method, first argument, second argument) *)")
+    L.append("Definition global_helpers : list (string * string * string * string) :=\n  [" + "; ".join(f"({q(a)}, {q(b)}, {q(c)}, {q(d)})" for a, b, c, d in helpers) + "].")
+    L.append("")
     L.append("(* yrx_compiler_create flags: constant, value, yara_x::Compiler method called when the bit is set, its argument")
     L.append("   (from the `if flags & YRX_X != 0 { compiler.m(b); }` statements of _yrx_compiler_create) *)")
     L.append("Definition compiler_flags : list (string * N * string * bool) :=\n  [" + ";\n   ".join(
